@@ -687,6 +687,12 @@ func (vc *VC) havocLocation(env *Env, st *State, m Expr, ct *Contract) {
 			st.ghosts[g.Name] = vc.fresh("G_"+g.Name, gs)
 			return
 		}
+		if g, ok := vc.eng.db.Ghosts[x.Name]; ok && g.Field {
+			// a bare ghost field name: that ghost field of every object
+			_, gs := env.inPkg(g.Pkg).resolveType(g.Type)
+			st.heaps["GF_"+g.Name] = vc.fresh("GF_"+g.Name, T.ArrayOf(sortInt, gs))
+			return
+		}
 		// a map- or pointer-typed parameter: its contents / pointee
 		v := env.eval(x)
 		vc.havocValueContents(st, v)
@@ -980,7 +986,7 @@ func (vc *VC) staticModTarget(ct *Contract, m Expr, c *ssa.CallCommon) []modTarg
 		case "everything":
 			return []modTarget{{kind: "all", heap: ct.Target}}
 		}
-		if g, ok := vc.eng.db.Ghosts[x.Name]; ok && !g.Field {
+		if g, ok := vc.eng.db.Ghosts[x.Name]; ok {
 			return []modTarget{{kind: "ghost", heap: g.Name}}
 		}
 		if t := vc.staticParamType(ct, x.Name, c); t != nil {
